@@ -274,3 +274,17 @@ pub unsafe extern "C" fn ec_seckey_verify(_cx: *const zffi::Context, sk: *const 
         0
     }
 }
+
+/// same predicate as `seckey_valid`, written without loops (for harnesses that run under a small unwind bound)
+pub fn seckey_valid_noloop(x: &[u8; 32]) -> bool {
+    let hi = u128::from_be_bytes([x[0], x[1], x[2], x[3], x[4], x[5], x[6], x[7], x[8], x[9], x[10], x[11], x[12], x[13], x[14], x[15]]);
+    let lo = u128::from_be_bytes([x[16], x[17], x[18], x[19], x[20], x[21], x[22], x[23], x[24], x[25], x[26], x[27], x[28], x[29], x[30], x[31]]);
+    const NHI: u128 = 0xFFFFFFFF_FFFFFFFF_FFFFFFFF_FFFFFFFE;
+    const NLO: u128 = 0xBAAEDCE6_AF48A03B_BFD25E8C_D0364141;
+    (hi != 0 || lo != 0) && (hi < NHI || (hi == NHI && lo < NLO))
+}
+pub unsafe extern "C" fn ec_seckey_verify_noloop(_cx: *const zffi::Context, sk: *const u8) -> i32 {
+    let mut a = [0u8; 32];
+    core::ptr::copy_nonoverlapping(sk, a.as_mut_ptr(), 32);
+    if seckey_valid_noloop(&a) { 1 } else { 0 }
+}
